@@ -20,18 +20,19 @@ META = {
         "thorough": {"evaluations": 30000, "mon.roundtrip": 1000, "mon.alltrees": 5000, "mon.onetree": 5000, "mon.supertree": 500, "mon.dsu": 11000},
     },
     "exhaustive": {"quick": True, "thorough": True},
-    "space": {"quick": "all labelled binary trees <=5 leaves; all subsets of the triples on 3 leaves and all 4096 subsets on 4 leaves; all union histories <=4 on 5 elements (11 111)", "thorough": "all labelled binary trees <=6 leaves; all 4096 triple subsets on 4 leaves, random subsets on 5-6 leaves; all union histories <=4 on 5 elements (11 111)"},
+    "space": {"quick": "all labelled binary trees <=6 leaves; all subsets of the triples on 3 leaves and all 4096 subsets on 4 leaves; all union histories <=4 on 5 elements (11 111)", "thorough": "all labelled binary trees <=7 leaves; all 4096 triple subsets on 4 leaves, random subsets on 5-6 leaves; all union histories <=4 on 5 elements (11 111)"},
     "assumptions": ["triples are passed in the canonical form produced by the package (cherry first, lexicographically ordered)"],
     "timeout": {"quick": 420, "thorough": 3600},
 }
 
-LEAVES = "abcdef"
+LEAVES = "abcdefg"
+ODD_NAMES = ["10", "9", "2", "1a", "B", "a", "_x"]  # lexicographic order differs from numeric order / case
 
 
 def plan(tier, seed):
     q = tier == "quick"
     n = 16
-    specs = [{"kind": "mix", "i": i, "n": n, "maxleaves": 5 if q else 6, "sub4_stride": 1, "nrand": 30 if q else 400, "hist": 4, "nsuper": 8 if q else 80} for i in range(n)]
+    specs = [{"kind": "mix", "i": i, "n": n, "maxleaves": 6 if q else 7, "sub4_stride": 1, "nrand": 100 if q else 600, "hist": 4, "nsuper": 12 if q else 100} for i in range(n)]
     return specs
 
 
@@ -359,7 +360,10 @@ def run(ctx, spec):
             if idx % spec["n"] != spec["i"]:
                 continue
             # also a mirrored presentation
-            check_roundtrip(ctx, nested if idx % 2 else RT.tolist(RT.mirror(_tup(nested))))
+            tree = nested if idx % 2 else RT.tolist(RT.mirror(_tup(nested)))
+            if idx % 3 == 0:
+                tree = _rename_leaves(tree, dict(zip(LEAVES, ODD_NAMES)))
+            check_roundtrip(ctx, tree)
             if ctx.too_many():
                 return
     for n, stride in ((3, 1), (4, spec["sub4_stride"])):
@@ -377,7 +381,7 @@ def run(ctx, spec):
     rng = ctx.rng("rand")
     for _ in range(spec["nrand"]):
         n = rng.choice([5, 5, 6])
-        leaves = list(LEAVES[:n])
+        leaves = list(LEAVES[:n]) if rng.random() < 0.7 else ODD_NAMES[:n]
         if rng.random() < 0.7:
             # mostly consistent: triples of a hidden tree, sometimes plus noise
             M, names = model_of(RT.random_binary(rng, leaves))
@@ -399,10 +403,17 @@ def run(ctx, spec):
             check_dsu(ctx, 5, history)
             if ctx.too_many():
                 return
-    for _ in range(spec["nrand"]):
-        n = rng.randint(1, 9)
-        history = [(rng.randrange(n), rng.randrange(n)) for _ in range(rng.randint(0, 10))]
+    for _ in range(spec["nrand"] * 2):
+        n = rng.randint(1, 12)
+        history = [(rng.randrange(n), rng.randrange(n)) for _ in range(rng.randint(0, 14))]
+        if rng.random() < 0.3 and n >= 8:
+            # balanced merging: ranks tie repeatedly
+            history = [(0, 1), (2, 3), (4, 5), (6, 7), (0, 2), (4, 6), (0, 4)][: rng.randint(3, 7)] + history[:3]
         check_dsu(ctx, n, history)
+
+
+def _rename_leaves(x, ren):
+    return ren[x] if isinstance(x, str) else [_rename_leaves(c, ren) for c in x]
 
 
 def _tup(x):
